@@ -31,8 +31,8 @@ SHAPES_3D = [
 @st.composite
 def scenario_st(draw, shapes, max_n=24, weight_kinds=("none", "int", "dyadic", "zeroheavy"),
                 measure="maybe", numeric="some", max_valid=4, max_items=3, stats=None,
-                allow_order_key=True, min_valid=1):
-    n = draw(S.n_st(max_n))
+                allow_order_key=True, min_valid=1, skew=True, min_n=0):
+    n = draw(S.n_st(max_n, min_n))
     shape = draw(st.sampled_from(shapes))
     weights = draw(S.weights_st(n, weight_kinds))
     svars = {}
@@ -43,7 +43,7 @@ def scenario_st(draw, shapes, max_n=24, weight_kinds=("none", "int", "dyadic", "
         if tok in CATLIKE:
             svars[alias] = draw(S.cat_var_st(alias, n, flavour=tok, min_valid=min_valid,
                                              max_valid=max_valid, numeric=numeric,
-                                             allow_order_key=allow_order_key))
+                                             allow_order_key=allow_order_key, skew=skew))
             dims.append({"var": alias})
         elif tok == "mr":
             svars[alias] = draw(S.mr_var_st(alias, n, max_items=max_items))
@@ -53,7 +53,8 @@ def scenario_st(draw, shapes, max_n=24, weight_kinds=("none", "int", "dyadic", "
                 ca_alias = "ca"
                 svars[ca_alias] = draw(S.ca_var_st(ca_alias, n, max_items=max_items,
                                                    min_valid=min_valid,
-                                                   max_valid=max_valid, numeric=numeric))
+                                                   max_valid=max_valid, numeric=numeric,
+                                                   skew=skew))
             dims.append({"var": ca_alias, "part": "items" if tok == "cai" else "cats"})
         elif tok == "na":
             svars["na"] = draw(S.numarr_var_st("na", n, max_items=max_items))
